@@ -781,7 +781,8 @@ func (e *Engine) wrap(fr *Frame, st *State, ins ssa.Instruction, r *Term, t type
 		}
 	}
 	bits := intBits(t)
-	if isUnsigned(t) && bits < 64 {
+	if isUnsigned(t) {
+		// unsigned arithmetic wraps by definition (no panic, no obligation)
 		if r.Hi != nil && r.Hi.Cmp(hi) <= 0 && !mayBeNegative(r) {
 			return r
 		}
@@ -845,7 +846,7 @@ func (e *Engine) binop(fr *Frame, st *State, ins ssa.Instruction, op token.Token
 			return e.wrap(fr, st, ins, Add(x, y), resT)
 		case token.SUB:
 			r := Sub(x, y)
-			if isUnsigned(resT) && intBits(resT) < 64 {
+			if isUnsigned(resT) {
 				return Mod(r, Pow2(intBits(resT)))
 			}
 			return e.wrap(fr, st, ins, r, resT)
@@ -1318,6 +1319,10 @@ func (e *Engine) valueEq(st *State, a, b Value) *Term {
 // sliceGeomEq: same backing object, offset, length (capacity too).
 func (e *Engine) sliceGeomEq(x, y SliceV) *Term {
 	if x.Obj != y.Obj {
+		if (x.Obj != nil && x.Obj.Sym) || (y.Obj != nil && y.Obj.Sym) {
+			// a placeholder may or may not denote the other object
+			return Or(And(x.Nil, y.Nil), And(e.freshVar("sameobj", SBool), Eq(x.Off, y.Off), Eq(x.Len, y.Len), Eq(x.Cap, y.Cap), Iff(x.Nil, y.Nil)))
+		}
 		return And(x.Nil, y.Nil)
 	}
 	return And(Eq(x.Off, y.Off), Eq(x.Len, y.Len), Eq(x.Cap, y.Cap), Iff(x.Nil, y.Nil))
@@ -1587,6 +1592,13 @@ func (e *Engine) goStmt(fr *Frame, st *State, x *ssa.Go) {
 					args[i] = e.val(fr, st, a)
 				}
 				e.checkPre(fr, st, con, fn, args, x, nil)
+				for _, g := range con.GhostInc {
+					cur, ok := st.ghost[g].(*Term)
+					if !ok {
+						cur, _ = e.ghostInit(st, g).(*Term)
+					}
+					st.ghost[g] = Add(cur, Num(1))
+				}
 			}
 		}
 	}
